@@ -3,4 +3,6 @@
 set -e
 . "$(dirname "$0")/env.sh"
 "$VERIF_ROOT/build.sh"
+# warm the cache for the race-detector build of the command (C19 family R); not fatal where cgo is unavailable
+( cd "${VERIF_REPO:-/repo}" && CGO_ENABLED=1 go build -race -o "$VERIF_ROOT/.cache/tsh-race-warm" . 2>/dev/null && rm -f "$VERIF_ROOT/.cache/tsh-race-warm" ) || echo "note: race-detector build not available here (C19 family R will be skipped and counted)"
 echo "setup ok: $("$VERIF_ROOT/bin/vcheck" 2>&1 | head -1)"
